@@ -1,5 +1,6 @@
 SPECIFICATION BSpec
 CONSTANTS
+  Items = {"field", "kv", "kvs", "md", "roy", "owner", "role"}
   K = 1
 INVARIANT EmitAll
 CHECK_DEADLOCK FALSE
